@@ -60,7 +60,7 @@ def build_pool(master_seed, names=None, versions=('1.0', '1.1'), build=True, cor
             if version not in fam.versions:
                 continue
             main = write_sources(fam, version)
-            schema = schema_class(version)(main, build=build)
+            schema = fam.assemble(os.path.dirname(main), schema_class(version), build=build)
             docs = fam.docs(sub_rng(master_seed, 'pool', name))
             entries[f'{name}/{version}'] = Entry(fam, version, schema, main, docs)
     if corpus:
